@@ -141,6 +141,20 @@ def run(rec):
                         exp = np.array([[mpsgen.expect_dense(v, sites, [(a, i), (b, j)]) for j in range(L)] for i in range(L)])
                         rec.check(np.allclose(C, exp, atol=tol), 'correlation_function(hermitian=True):value',
                                   f'ops {a},{b}: max dev {np.abs(C - exp).max()} at {np.unravel_index(np.argmax(np.abs(C - exp)), C.shape)}', dict(inp, ops=(a, b)))
+                # a pair of one fermionic and one bosonic operator has no consistent Jordan-Wigner string: documented ValueError, in either order
+                ferm = [n for n in cand if s0.op_needs_JW(n)]
+                bosn = [n for n in sorted(s0.opnames) if not s0.op_needs_JW(n) and n not in ('Id', 'JW')]
+                if ferm and bosn and L >= 2:
+                    for o1, o2 in ((ferm[0], bosn[0]), (bosn[0], ferm[0])):
+                        try:
+                            psi.correlation_function(o1, o2)
+                            raised = None
+                        except ValueError:
+                            raised = 'ValueError'
+                        except Exception as e:
+                            raised = type(e).__name__
+                        rec.check(raised == 'ValueError', 'correlation_function(mixed JW pair):no-ValueError',
+                                  f'correlation_function({o1!r}, {o2!r}) -> {"a result" if raised is None else raised}', dict(inp, ops=(o1, o2)))
                 # correlation functions of terms, moving the right / the left term (fermionic terms with JW included)
                 if L >= 4:
                     for a in cand[:4]:
